@@ -1,5 +1,5 @@
 #!/bin/bash
 # tools/show_mutres.sh <tag> : one line per evaluated seeded change
 for f in /tmp/mutres/$1-*.check; do m=$(basename $f .check); c=/tmp/mutres/$m.confirm
-  echo "$m suite=$(grep -o 'suite_with_change_exit": [0-9]*' $c | grep -o '[0-9]*$') with=$(grep -o 'demo_with_change_exit": [0-9]*' $c | grep -o '[0-9]*$') wo=$(grep -o 'demo_without_change_exit": [0-9]*' $c | grep -o '[0-9]*$') | $(grep -E '^\[C' $f | sed 's/.*\(violations=[0-9]*\).*wall=\([0-9.]*s\)/\1 \2/') $(grep 'check exit' $f)"
+  echo "$m suite=$(grep -a -o 'suite_with_change_exit": [0-9]*' $c | grep -a -o '[0-9]*$') with=$(grep -a -o 'demo_with_change_exit": [0-9]*' $c | grep -a -o '[0-9]*$') wo=$(grep -a -o 'demo_without_change_exit": [0-9]*' $c | grep -a -o '[0-9]*$') | $(grep -a -E '^\[C' $f | sed 's/.*\(violations=[0-9]*\).*wall=\([0-9.]*s\)/\1 \2/') $(grep -a 'check exit' $f)"
 done
